@@ -1524,6 +1524,66 @@ fn random_sequences(seed: u64, n: u64, sample: bool, ev: &mut Evidence, sink: &m
 
 // ---------------------------------------------------------------------------------------------------------------
 
+/// (iv) The constant messages the HTTP transport emits on its own (internal error, request too large, malformed request):
+/// whenever the library labels a body application/json it is one valid JSON-RPC 2.0 error response with id null - no
+/// duplicate members, nothing but jsonrpc / id / error, an integer code and a string message.
+fn http_constant_messages(ev: &mut Evidence, sink: &mut Sink) {
+	use http_body_util::BodyExt;
+	use jsonrpsee_server::http::response;
+	let mut made: Vec<(String, jsonrpsee_server::HttpResponse)> = vec![("internal_error()".into(), response::internal_error()), ("malformed()".into(), response::malformed())];
+	for l in [0u32, 1, 100, 10 * 1024 * 1024, u32::MAX] {
+		made.push((format!("too_large({l})"), response::too_large(l)));
+	}
+	made.push(("host_not_allowed()".into(), response::host_not_allowed()));
+	made.push(("method_not_allowed()".into(), response::method_not_allowed()));
+	made.push(("unsupported_content_type()".into(), response::unsupported_content_type()));
+	made.push(("too_many_requests()".into(), response::too_many_requests()));
+	for (name, rp) in made {
+		let status = rp.status().as_u16();
+		let ct = rp.headers().get("content-type").and_then(|v| v.to_str().ok()).unwrap_or("").to_string();
+		let body = block_on_virtual(async move { rp.into_body().collect().await.map(|b| b.to_bytes().to_vec()).unwrap_or_default() });
+		ev.eval();
+		ev.count("http_constant_messages_checked", 1);
+		if !ct.starts_with("application/json") {
+			ev.count("http_constant_messages_text_plain", 1);
+			continue;
+		}
+		let text = String::from_utf8_lossy(&body).to_string();
+		let mut faults: Vec<String> = Vec::new();
+		match serde_json::from_str::<Members>(&text) {
+			Err(e) => faults.push(format!("not a JSON object: {e}")),
+			Ok(m) => {
+				let names: Vec<&str> = m.0.iter().map(|(k, _)| k.as_str()).collect();
+				for k in &names {
+					if !["jsonrpc", "id", "error"].contains(k) {
+						faults.push(format!("member `{k}` has no place in an error response"));
+					}
+					if names.iter().filter(|x| *x == k).count() > 1 {
+						faults.push(format!("member `{k}` appears more than once"));
+					}
+				}
+				let get = |k: &str| m.0.iter().find(|(n, _)| n == k).map(|(_, v)| v.get().to_string());
+				if get("jsonrpc").as_deref() != Some("\"2.0\"") {
+					faults.push(format!("jsonrpc member is {:?}", get("jsonrpc")));
+				}
+				if get("id").as_deref() != Some("null") {
+					faults.push(format!("id member is {:?} (nothing of the request is known: null)", get("id")));
+				}
+				match get("error").and_then(|e| serde_json::from_str::<Value>(&e).ok()) {
+					Some(e) if e["code"].is_i64() && e["message"].is_string() => {}
+					other => faults.push(format!("error member is {other:?}")),
+				}
+			}
+		}
+		if faults.is_empty() {
+			ev.nontrivial(&("http-constant", name.clone()));
+		}
+		for f in faults {
+			sink.push(format!("emitted-message-invalid/http-constant/{}", name.split('(').next().unwrap_or("")), format!("{name} (status {status}, {ct}) emits {text}: {f}"), || json!({"constructor": name, "body": text}));
+		}
+	}
+}
+
 fn boundary_codes() -> Vec<i32> {
 	let mut v = vec![i32::MIN, i32::MIN + 1, i32::MAX, i32::MAX - 1, 0, 1, -1, 65535, -65536, 32767, -32768, -32769, 1 << 24, -(1 << 24)];
 	for (_, c) in NAMED_KINDS {
@@ -1707,6 +1767,7 @@ fn main() {
 	}
 	let kinds = check_kinds(&mut sink, &mut ev, &server_error_samples);
 	ev.count("error_kinds_checked", kinds);
+	http_constant_messages(&mut ev, &mut sink);
 
 	// (i) round trips
 	let shards = 16u64;
